@@ -317,8 +317,40 @@ impl<'a, 'ast> Visit<'ast> for R3<'a> {
         visit::visit_expr_method_call(self, m);
     }
 }
+struct R3b<'a> {
+    src: &'a str,
+    edits: &'a mut Vec<Edit>,
+}
+impl<'a, 'ast> Visit<'ast> for R3b<'a> {
+    fn visit_stmt(&mut self, st: &'ast Stmt) {
+        // statement `M.entry(K).or_insert_with(|| V);` (result unused)  ->  `{ let k_ = K; if !M.contains_key(&k_) { M.insert(k_, V); } }`
+        if let Stmt::Expr(Expr::MethodCall(m), Some(_)) = st {
+            if m.method == "or_insert_with" && m.args.len() == 1 {
+                if let (Expr::Closure(c2), Expr::MethodCall(en)) = (&m.args[0], &*m.receiver) {
+                    if en.method == "entry" && en.args.len() == 1 && c2.inputs.is_empty() {
+                        let mtxt = txt(self.src, &*en.receiver);
+                        let k = txt(self.src, &en.args[0]);
+                        let i = txt(self.src, &*c2.body);
+                        let (s, e) = nr(m);
+                        self.edits.push(Edit {
+                            start: s,
+                            end: e,
+                            text: format!("{{ let k_ = {k}; if !{m}.contains_key(&k_) {{ let nv_ = {i}; {m}.insert(k_, nv_); }} }}", k = k, m = mtxt, i = i),
+                            rule: "R3",
+                        });
+                        return;
+                    }
+                }
+            }
+        }
+        visit::visit_stmt(self, st);
+    }
+}
 fn r3(src: &str, f: &syn::File, _c: &Ctx, e: &mut Vec<Edit>) {
     R3 { src, edits: e }.visit_file(f);
+    if e.is_empty() {
+        R3b { src, edits: e }.visit_file(f);
+    }
 }
 
 // ---------------------------------------------------------------------------------------------- R11
@@ -398,10 +430,33 @@ impl<'a> R4<'a> {
                 }
             }
         }
+        // `if C { S..; continue; } REST`  ->  `if C { S.. } else { REST }`
+        for (i, st) in stmts.iter().enumerate() {
+            if let Stmt::Expr(Expr::If(ifx), _) = st {
+                let tb = &ifx.then_branch.stmts;
+                let ends_with_continue = ifx.else_branch.is_none() && tb.len() > 1 && matches!(&tb[tb.len() - 1], Stmt::Expr(e, _) if is_continue(e));
+                if ends_with_continue && i + 1 < n {
+                    let (cs, ce) = nr(&tb[tb.len() - 1]);
+                    self.edits.push(Edit { start: cs, end: ce, text: String::new(), rule: "R4" });
+                    // drop a `;` that follows the if statement, open the else block, close it at the end of the enclosing block
+                    let if_end = nr(st).1;
+                    let close = br(b.brace_token.span.close()).0;
+                    let ife = nr(ifx).1;
+                    self.edits.push(Edit { start: ife, end: if_end, text: " else {".into(), rule: "R4" });
+                    self.edits.push(Edit { start: close, end: close, text: "}".into(), rule: "R4" });
+                    return true;
+                }
+            }
+        }
         if n > 0 {
             if let Stmt::Expr(Expr::If(ifx), _) = &stmts[n - 1] {
                 if ifx.else_branch.is_none() {
                     return self.tail_block(&ifx.then_branch);
+                }
+                if let Some((_, eb)) = &ifx.else_branch {
+                    if let Expr::Block(ebb) = &**eb {
+                        return self.tail_block(&ebb.block);
+                    }
                 }
             }
         }
@@ -452,6 +507,15 @@ impl<'a, 'ast> Visit<'ast> for R1<'a> {
     }
     fn visit_expr_for_loop(&mut self, fl: &'ast syn::ExprForLoop) {
         match &*fl.expr {
+            Expr::MethodCall(m) if m.method == "values" && m.args.is_empty() && is_simple_ident_pat(&fl.pat) => {
+                // `for v in M.values()` is `for (_, v) in M.iter()` (std: Values is Iter mapped to the second component, same order);
+                // vstd specifies the pairs of `iter()` completely but says almost nothing about `values()`
+                let (ms, me) = (br(m.method.span()).0, nr(m).1);
+                self.edits.push(Edit { start: ms, end: me, text: "iter()".into(), rule: "R1" });
+                let (ps, pe) = nr(&*fl.pat);
+                self.edits.push(Edit { start: ps, end: pe, text: format!("(k_of_{v}_, {v})", v = txt(self.src, &*fl.pat)), rule: "R1" });
+                return;
+            }
             Expr::Reference(r) if r.mutability.is_none() && matches!(&*r.expr, Expr::MethodCall(_) | Expr::Call(_)) => {
                 // the iterated value is a temporary: bind it first (Verus' expansion of `for` does not extend its lifetime);
                 // `{ let it_src_ = CALL; for P in it_src_.iter() { .. } }` drops it at the same point as the original statement
@@ -462,6 +526,16 @@ impl<'a, 'ast> Visit<'ast> for R1<'a> {
                 self.edits.push(Edit { start: es, end: ee, text: "it_src_.iter()".into(), rule: "R1" });
                 self.edits.push(Edit { start: fe, end: fe, text: " }".into(), rule: "R1" });
                 return;
+            }
+            Expr::Reference(r) if r.mutability.is_some() => {
+                // `for c in &mut X` is `for c in X.iter_mut()` (IntoIterator for &mut Vec / slice)
+                let inner = txt(self.src, &*r.expr);
+                let simple = matches!(&*r.expr, Expr::Path(_) | Expr::Field(_));
+                if simple {
+                    let (s, e) = nr(&*fl.expr);
+                    self.edits.push(Edit { start: s, end: e, text: format!("{}.iter_mut()", inner), rule: "R1" });
+                    return;
+                }
             }
             Expr::Reference(r) if r.mutability.is_none() => {
                 let inner = txt(self.src, &*r.expr);
@@ -1124,6 +1198,8 @@ enum Term<'e> {
 }
 enum Source {
     Iter(String),
+    /// `M.keys()` / `M.values()` of a map
+    MapIter(String, String),
     Range(String, String),
 }
 fn strip_paren(e: &Expr) -> &Expr {
@@ -1158,6 +1234,10 @@ fn parse_chain<'e>(src: &str, m: &'e syn::ExprMethodCall) -> Option<(Source, Vec
                 match n.as_str() {
                     "iter" if mc.args.is_empty() => {
                         source = Source::Iter(txt(src, &*mc.receiver).to_string());
+                        break;
+                    }
+                    "keys" | "values" if mc.args.is_empty() => {
+                        source = Source::MapIter(txt(src, &*mc.receiver).to_string(), n.clone());
                         break;
                     }
                     "cloned" if mc.args.is_empty() => stages.push(Stage::Cloned),
@@ -1213,7 +1293,7 @@ impl<'a> R15<'a> {
         };
         let needs = stages.iter().any(|s| matches!(s, Stage::Filter(_) | Stage::FilterMap(_)))
             || matches!(term, Term::Fold(..) | Term::Max)
-            || matches!(source, Source::Range(..))
+            || matches!(source, Source::Range(..) | Source::MapIter(..))
             || to_set; // vstd has no specification of `FromIterator for HashSet`
         if !needs {
             return None;
@@ -1266,6 +1346,7 @@ impl<'a> R15<'a> {
         }
         let head = match source {
             Source::Iter(x) => format!("for it0_ in {}.iter()", x),
+            Source::MapIter(x, mth) => format!("for it0_ in {}.{}()", x, mth),
             Source::Range(a, b) => format!("for it0_ in {}..{}", a, b),
         };
         let text = match term {
